@@ -219,6 +219,12 @@ carquet_status_t carquet_read_dictionary_page(
             break;
     }
 
+    if (header->num_values < 0) {
+        CARQUET_SET_ERROR(error, CARQUET_ERROR_INVALID_PAGE,
+            "Invalid dictionary size %d", (int)header->num_values);
+        return CARQUET_ERROR_INVALID_PAGE;
+    }
+
     reader->dictionary_count = header->num_values;
 
     if (reader->type == CARQUET_PHYSICAL_BYTE_ARRAY) {
@@ -267,7 +273,11 @@ carquet_status_t carquet_read_dictionary_page(
             dict_remaining -= entry_size;
         }
     } else {
-        /* Fixed size values */
+        /* Fixed size values: all of them must be present in the page */
+        if (value_size > 0 && (size_t)header->num_values > page_size / value_size) {
+            CARQUET_SET_ERROR(error, CARQUET_ERROR_DECODE, "Truncated dictionary");
+            return CARQUET_ERROR_DECODE;
+        }
         size_t dict_size = value_size * header->num_values;
         reader->dictionary_data = malloc(dict_size);
         if (!reader->dictionary_data) {
